@@ -502,10 +502,13 @@ func w5HlsAuthName(p *model.Prog, r *report.Result, rule string) {
 	r.Rule(rule, "ServerManager.serveHls passes to Authentication.OnHls the StreamName of hls.PathStrategy.GetRequestInfo for the same request - the name the file server derives the served directory from - not another part of the url (for /hls/<stream>/playlist.m3u8 the file name is 'playlist' for every stream)")
 	fn := p.Method("pkg/logic", "ServerManager", "serveHls")
 	n := 0
-	for _, ci := range model.AllCalls(fn) {
-		if !ci.Common().IsInvoke() || ci.Common().Method.Name() != "OnHls" {
-			continue
+	var sites []ssa.CallInstruction
+	model.EachInstrDeep(fn, 1, func(d model.DeepInstr) {
+		if ci, ok := d.In.(ssa.CallInstruction); ok && ci.Common().IsInvoke() && ci.Common().Method.Name() == "OnHls" {
+			sites = append(sites, ci)
 		}
+	})
+	for _, ci := range sites {
 		n++
 		ok := model.DependsOn(ci.Common().Args[0], func(v ssa.Value) bool {
 			switch x := v.(type) {
